@@ -43,4 +43,7 @@ Lemma tw_app : forall a b, tw (a ++ b) = tw a + tw b.
 Proof. induction a as [|c a IH]; intros b; cbn [app tw]; [lia|]. rewrite IH. lia. Qed.
 
 Lemma valid_skipn : forall k l, valid l -> valid (skipn k l).
-Proof. intros k l V c Hc. apply V. eapply skipn_In_aux. exact Hc. Qed.
+Proof.
+  induction k as [|k IH]; intros l V; [exact V|]. destruct l as [|c r]; [exact V|]. cbn [skipn].
+  apply IH. intros x Hx. apply V. right. exact Hx.
+Qed.
